@@ -203,6 +203,10 @@ class Scen(srvlib.HistGen):
         addr = s.addr
         if newaddr:
             addr = (s.addr[0], s.addr[1], s.addr[2] + 777)
+            if not self.check_ip and self.rng.randrange(2):
+                # without source checking (-c) the repeat may come through any relay: another address, the other address family
+                addr = self.rng.choice([(4, bytes([203, 0, 113, 9]), 5300), (6, bytes([0x20, 1, 0xd, 0xb8] + [0] * 11 + [0x99]), 5300)])
+                self.cstats['redeliver_other_family'] = self.cstats.get('redeliver_other_family', 0) + 1
             self.cstats['redeliver_addr'] += 1
         self.send_query(addr, nm)
         self.stats['dup'] += 1
@@ -284,9 +288,13 @@ class Scen(srvlib.HistGen):
         return self.line()
 
     # ---- scenario B: re-deliveries (C16) ------------------------------------------------------------
-    def build_redeliveries(self, nevents):
+    def build_redeliveries(self, nevents, relays=False):
         r = self.rng
         lazy = r.randrange(4) == 0
+        if relays:
+            # lazy mode without source checking (-c): held queries repeated through other relays
+            lazy = True
+            self.check_ip = 0
         F = r.choice([10, 50, 200, 1000])
         s = self.open_session(0, F=F, lazy=lazy)
         others = [o for o in (self.open_session(k) for k in range(1, r.choice([1, 1, 2]))) if o is not None]
@@ -317,13 +325,13 @@ class Scen(srvlib.HistGen):
                 self.sweep()
             elif x < 0.95 and others:
                 self.ping_x(r.choice(others))
-            elif x < 0.97:
+            elif x < 0.97 and not (relays and r.randrange(2)):
                 self.nreq(s, r.choice([F, 0, 1, 300]))
             else:
                 if lazy:
-                    # held query repeated at once: remembered as duplicate
+                    # held query repeated at once: remembered as duplicate (without source checking also through another relay)
                     self.ping_x(s)
-                    self.redeliver(s, back=1)
+                    self.redeliver(s, back=1, newaddr=(not self.check_ip and r.randrange(2) == 0))
                     self.cstats['pending_dup'] += 1
             self.tick()
         return self.line()
@@ -341,7 +349,7 @@ def gen_targeted(seed, n, nevents, kind, tag):
             F = FRAG_BOUNDARIES[i % len(FRAG_BOUNDARIES)] if i < 2 * len(FRAG_BOUNDARIES) else None
             out.append(g.build_transfers(nevents, F=F))
         else:
-            out.append(g.build_redeliveries(nevents))
+            out.append(g.build_redeliveries(nevents, relays=(i % 5 == 4)))
         for k, v in g.stats.items():
             stats[k] = stats.get(k, 0) + v
         for k, v in g.cstats.items():
